@@ -1146,6 +1146,15 @@ class Interp:
                 return obj[k]
             except IndexError:
                 raise_('IndexError', 'list index out of range')
+        if isinstance(obj, self.models.DefaultDictV):
+            try:
+                return self.dict_get(obj, idx)
+            except PyRaise as e:
+                if not e.exc.cls.isa('KeyError') or obj.default_factory is None:
+                    raise
+            v = self.call(obj.default_factory, [], {})
+            self.setitem(obj, idx, v)
+            return v
         if isinstance(obj, dict):
             return self.dict_get(obj, idx)
         if isinstance(obj, str):
